@@ -183,6 +183,23 @@ func (x *fnv) oblige(s *State, kind, label string, goal *Term, pos token.Pos, cl
 		name += "." + label
 	}
 	o := &Obligation{Name: name, Func: x.qual(), Kind: kind, Label: label, Props: x.props(cl), Goal: goal, Pos: x.posStr(pos), ctx: x.c}
+	if x.fc != nil && cl != nil && len(cl.Props) > 0 && (kind == "assert" || kind == "pre" || strings.HasPrefix(kind, "inv.")) {
+		// assertions, invariants and callee preconditions are assumed by everything that follows them in the function
+		// (assert-then-assume): every property the function serves depends on them, whatever the clause is tagged with
+		ps := append([]string(nil), o.Props...)
+		for _, p := range x.fc.Props {
+			has := false
+			for _, q := range ps {
+				if q == p {
+					has = true
+				}
+			}
+			if !has {
+				ps = append(ps, p)
+			}
+		}
+		o.Props = ps
+	}
 	if kind == "frame" || strings.HasSuffix(kind, ".frame") {
 		// write-frame obligations are the content of C09 (runs write only their own memory) for every function under contract
 		has := false
